@@ -2,7 +2,8 @@
 """Both-ways variant suite.
 
 Each variant is an edit (old -> new text, exactly one occurrence unless count given) of one file of the
-current /repo tree, applied to a scratch copy under $TMPDIR (removed afterwards).  kind 'break' must make
+current /repo tree, applied to a scratch copy under $TMPDIR (removed afterwards).  kind 'refuse' (breaking, but without
+positive evidence in reach of the analysis) must make the check exit 2;  kind 'break' must make
 ./check <pid> exit 1 with a VIOLATION naming the expected rule; kind 'keep' (behaviour-preserving) must
 leave it at exit 0.  Anything else fails the suite (exit 2).
 
@@ -79,6 +80,12 @@ def run_one(args):
                 return (pid, v, "WRONG-RULE", "expected rule %s; got:\n%s" % (want, _viol(out)))
             return (pid, v, "OK", _viol(out)[:200])
         return (pid, v, "MISSED", "exit %d\n%s" % (p.returncode, out[-600:]))
+    elif kind == "refuse":
+        # a breaking change for which the analysis has no positive evidence of a violation: it must refuse to pass (exit 2,
+        # 'cannot decide'), never exit 0
+        if p.returncode == 2 and "ANALYSIS-ERROR" in out:
+            return (pid, v, "OK", "")
+        return (pid, v, "MISSED" if p.returncode == 0 else "UNEXPECTED", "exit %d\n%s" % (p.returncode, out[-600:]))
     else:
         if p.returncode == 0:
             return (pid, v, "OK", "")
@@ -132,7 +139,7 @@ def main():
                 print("      " + info.replace("\n", "\n      "))
         if status != "OK":
             bad += 1
-    nb = sum(1 for r in res if r[1]["kind"] == "break")
+    nb = sum(1 for r in res if r[1]["kind"] in ("break", "refuse"))
     print("selftest: %d variants (%d breaking, %d preserving), %d not as expected%s" % (
         len(res), nb, len(res) - nb, bad, (", %d skipped (edit does not apply to this tree)" % nstale) if nstale else ""))
     return 2 if bad else 0
